@@ -26,8 +26,9 @@ import (
 //
 // <oracle> is "-" or a comma separated table e:<hexin>=<hexout> / d:<hexin>=<hexout|!> of what the real
 // codec answered on the inputs of this very case.  The codecs are property C08's subject; the Lean model
-// of this component takes the codec as a parameter (locally computed for Base32/64/64u/Raw, table
-// look-up for Base85/91/128).  Exec ignores the token and always uses the real codec.
+// of this component takes the codec as a parameter and the driver instantiates it with C08's models
+// (every codec except Base192, which would be a table look-up).  Exec ignores the token and always
+// uses the real codec.
 
 type recEnc struct {
 	enc.Encoder
@@ -65,8 +66,13 @@ func oracleToken(rec []string) string {
 	return strings.Join(out, ",")
 }
 
-// codecs whose behaviour the model looks up instead of computing
+// codecs whose behaviour a model looks up instead of computing (the `dnsresp` component, C10)
 func oracleCodec(letter string) bool { return letter == "W" || letter == "X" || letter == "V" }
+
+// … and for `dnsreq`: none of the selectable ones any more — the model computes Base32/64/64u/85/91/128 with
+// property C08's models (SA.Model.WireCodecInst); the token stays in the line format (corpus lines carry
+// it, and Base192 would be looked up from it).
+func reqOracleCodec(letter string) bool { return false }
 
 func codecOf(letter string, rec *[]string) (enc.Encoder, error) {
 	if len(letter) != 1 {
@@ -477,7 +483,7 @@ func stressBytes(r *Rand, n int, mode int) []byte {
 
 func (c dnsreqComp) emitReq(emit func(string), letter, domain, cache, fields string) {
 	op := fmt.Sprintf("req %s %s %s - %s", letter, domain, cache, fields)
-	if oracleCodec(letter) {
+	if reqOracleCodec(letter) {
 		rec := []string{}
 		c.run(op, &rec)
 		op = fmt.Sprintf("req %s %s %s %s %s", letter, domain, cache, oracleToken(rec), fields)
